@@ -86,10 +86,11 @@ class AnsiSetting:
         # The value of _str is meant to be constant, so this needs to only be checked once then saved for future recall
         if hasattr(self, "_valid"):
             return self._valid
-        self._valid = False
 
+        # The flag is stored only once it is known (never a provisional value which an interruption could leave behind)
         for c in self._str:
             if ord(c) >= ansi_term_ord_range[0] and ord(c) <= ansi_term_ord_range[1]:
+                self._valid = False
                 return False
 
         self._valid = True
@@ -104,8 +105,13 @@ class AnsiSetting:
         # The value of _str is meant to be constant, so this needs to only be checked once then saved for future recall
         if hasattr(self, "_parsable"):
             return self._parsable
-        self._parsable = False
+        # The flag is stored only once it is known (never a provisional value which an interruption could leave behind)
+        parsable = self._is_parsable()
+        self._parsable = parsable
+        return parsable
 
+    def _is_parsable(self) -> bool:
+        ''' The computation behind the parsable property '''
         # Invalid string implies that the string is also not parsable
         if not self.valid:
             return False
@@ -137,8 +143,7 @@ class AnsiSetting:
         fn_found = False
         for fn in _AnsiControlFn:
             if fn.seq_starts_with_fn(codes):
-                self._parsable = (len(codes) == fn.total_seq_count)
-                return self._parsable
+                return len(codes) == fn.total_seq_count
             elif codes[0] == fn.setup_seq[0]:
                 fn_found = True
 
@@ -147,8 +152,7 @@ class AnsiSetting:
             return False
 
         # Otherwise, the length must be 1
-        self._parsable = (len(codes) == 1)
-        return self._parsable
+        return len(codes) == 1
 
     def to_list(self) -> List[Union[int, str]]:
         '''
